@@ -199,7 +199,9 @@ def oracle(case, rec=None):
         if S2 != S1:
             diff = [l for l in difflib.unified_diff(S1.splitlines(), S2.splitlines(), lineterm='', n=1)][2:14]
             sig = _classify(S1, S2, diff)
-            if sig == 'diff:comment-braces' and _m_end_off_directive(ctl1):
+            brace_moved = any(l[:1] in '+-' and l.rstrip().endswith('}') for l in diff)
+            if (sig == 'diff:comment-braces' or (sig == 'diff:line-count' and brace_moved)) and _m_end_off_directive(ctl1):
+                # (line-count form: the closing brace sat on a continuation line of its own and moves onto the next instruction)
                 sig = 'diff:comment-braces:M-end-not-on-directive'
             raise Violation(sig, 'skool -> ctl -> skool differs:\n' + '\n'.join(diff), case)
         if r2.warnings():
